@@ -63,6 +63,10 @@ CLAIMS = {
          "Decided: the numwant clamp tables (udp: <= 0 -> max, else min(max, n); http: None|Some(0) -> max, Some(n) -> min(n, max); ws: min(offers, max_offers)) with the configured limit as origin; the guard and both get_range arguments of the three extract_response_peers implementations equal the reference skeleton (middle = len/2, h, off1 in [0, max(1, middle-h)), off2 in [middle, max(middle+1, len-h)), ends off+h), udp and http copies identical; small maps take(max); WebTorrent: every extend goes through a != sender filter and every return leaves the truncation loop on its false edge; udp/http remove the announcer before extracting.",
          "The bounds themselves follow from the hand argument recorded in rules/C02.py. Not decided: distinctness/membership of returned peers (indexmap), behaviour over RNG outcomes. Stated risk: an equivalent reformulation of the arithmetic would be reported.",
          "DESIGN.md section 2, C02"),
+ "C09": ("path/effect analysis of the offer and answer relays with identity of the zipped receiver tuple tracked through projections",
+         "Necessary conditions on every enumerated path: each forwarded offer is preceded in its iteration by exactly one expectation insert on the SENDER's entry keyed (receiver id, that offer's id); all six fields of a forwarded offer (expectation, routing pair, offer, offer id) project from the same zip item; receivers are zip(offers, extract_response_peers(min(offers, max_offers), sender)) with no reordering adapter; handle_offers/handle_answer only on the status != Stopped edge; handle_answer's complete three-row table (peer gone -> nothing; expectation consumed by swap_remove -> AnswerOutMessage to the offering peer's own (consumer, connection) pair; otherwise ErrorResponse to the answerer).",
+         "Not decided: multi-connection offer/answer histories (needs C08's bookkeeping to be right); expiry of expectations is decided under C10.",
+         "DESIGN.md section 2, C09"),
 }
 
 PENDING_REASON = "check under construction in this build phase (static rules designed in DESIGN.md section 2); not claimed until its rule set is validated both ways"
